@@ -72,12 +72,21 @@ def unrs(s):
 _built = False
 
 
+def lake(args):
+    """run `lake <args>` in lean/ under a global file lock: checks run in parallel and share one build directory"""
+    import fcntl
+    os.makedirs(os.path.join(LEAN, ".audit"), exist_ok=True)
+    with open(os.path.join(LEAN, ".audit", "lake.lock"), "w") as lock:
+        fcntl.flock(lock, fcntl.LOCK_EX)
+        return subprocess.run(["lake", *args], cwd=LEAN, capture_output=True, text=True)
+
+
 def lake_build(targets=("EoNVerif", "driver")):
     global _built
     if _built:
         return
     t0 = time.time()
-    p = subprocess.run(["lake", "build", *targets], cwd=LEAN, capture_output=True, text=True)
+    p = lake(["build", *targets])
     if p.returncode != 0:
         sys.stderr.write(p.stdout[-4000:] + p.stderr[-4000:])
         raise BuildError("lake build failed")
@@ -126,7 +135,7 @@ def translation_audit(pid, extra, failures, results):
     gen = importlib.import_module(extra.get("generator", "py2lean"))
     os.makedirs(os.path.join(LEAN, ".audit"), exist_ok=True)
     obligations, discharged = 1 + len(extra["theorems"]), 0
-    with open(os.path.join(LEAN, ".audit", "gen.lock"), "w") as lock:
+    with open(os.path.join(LEAN, ".audit", "gen_%s.lock" % extra.get("generator", "py2lean")), "w") as lock:
         fcntl.flock(lock, fcntl.LOCK_EX)          # C06/C07/C08 run in parallel and share the generated file
         try:
             changed, errors = gen.regenerate()
@@ -136,9 +145,9 @@ def translation_audit(pid, extra, failures, results):
             failures.append("translation of %s: %s" % (fn, e))
         if not errors:
             discharged += 1
-        p = subprocess.run(["lake", "build", extra["module"]], cwd=LEAN, capture_output=True, text=True)
+        p = lake(["build", extra["module"]])
     mod = extra["module"]
-    af = os.path.join(LEAN, ".audit", "AuditGen_%s.lean" % pid)
+    af = os.path.join(LEAN, ".audit", "AuditGen_%s_%s.lean" % (pid, mod.split(".")[-1]))
     with open(af, "w") as f:
         f.write("import %s\n" % mod)
         for t in extra["theorems"]:
@@ -199,11 +208,13 @@ def proof_audit(pid, thorough=False):
     failures = []
     mod = "EoNVerif.Props.%s" % pid
     # companion modules Props/<pid>b.lean, <pid>c.lean, ... belong to the same property
-    extra = registered_extra().get(pid)
+    extras = registered_extra().get(pid) or []
+    if isinstance(extras, dict):
+        extras = [extras]
     mods = [mod] + sorted("EoNVerif.Props." + f[:-5] for f in os.listdir(os.path.join(LEAN, "EoNVerif", "Props"))
                           if re.fullmatch(re.escape(pid) + r"[a-z]\.lean", f)
-                          and not (extra and extra["module"] == "EoNVerif.Props." + f[:-5]))
-    p = subprocess.run(["lake", "build", *mods], cwd=LEAN, capture_output=True, text=True)
+                          and not any(x["module"] == "EoNVerif.Props." + f[:-5] for x in extras))
+    p = lake(["build", *mods])
     built = p.returncode == 0
     if not built:
         failures.append("lake build %s failed: %s" % (" ".join(mods), (p.stdout + p.stderr)[-1500:]))
@@ -249,7 +260,7 @@ def proof_audit(pid, thorough=False):
     obligations = len(reg) + 1
     discharged = sum(1 for t in reg if t in results and not (results[t] - ALLOWED_AXIOMS)) + (0 if grep_bad else 1)
     # tie by translation: regenerate the generated model from /repo's source, rebuild and audit the gen_* theorems
-    if extra:
+    for extra in extras:
         o, d = translation_audit(pid, extra, failures, results)
         obligations += o
         discharged += d
@@ -262,6 +273,30 @@ def proof_audit(pid, thorough=False):
             failures.append("leanchecker %s failed: %s" % (mod, (p.stdout + p.stderr)[-500:]))
     return dict(obligations=obligations, discharged=discharged, failures=failures,
                 theorems={t: sorted(a) for t, a in results.items()})
+
+
+def trace_violation(impl, model):
+    """First difference between the implementation's RNG-call trace and the model's, classified.  Up to that call both
+    made the same calls with the same arguments and received the same draws, so they are in the same state.  The model's
+    clock rate is *proved* equal to the total rate of the specified chain and its candidate lists to the sets implied
+    by the statuses (clock_eq / run_inv theorems), hence:
+      * both draw a waiting time but with different rates  -> the implementation's clock is not the chain's total rate;
+      * both choose from a candidate list but the lists differ as multisets -> the implementation's candidate set is
+        not the set implied by the statuses (a mere reordering is not a violation of the law);
+      * one side stops / draws a different kind -> no verdict here (returned None; reported as a disagreement).
+    Returns a message or None."""
+    n = min(len(impl), len(model))
+    i = next((k for k in range(n) if impl[k] != model[k]), None)
+    if i is None:
+        return None
+    a, b = impl[i], model[i]
+    if a[0] == "e" and b[0] == "e" and a[1] != b[1]:
+        return "at RNG call %d the waiting time is drawn with rate %s; the total rate of the specified chain in that state is %s" % (i, a[1], b[1])
+    if a[0] == "c" and b[0] == "c":
+        ka, kb = sorted(map(repr, a[1])), sorted(map(repr, b[1]))
+        if ka != kb:
+            return "at RNG call %d the candidates are %s; the set implied by the statuses is %s" % (i, a[1][:12], b[1][:12])
+    return None
 
 
 # ----------------------------------------------------------------------------------------- context
